@@ -3,7 +3,7 @@ CONSTANTS
   NK = 5
   Gaps = {2}
   N = 3
-  MaxTok = 2
+  MaxTok = 1
   MaxIdle = 1
   Z = 2
   StateSet = {"ACTIVE", "JOINING"}
